@@ -108,6 +108,29 @@ fn big_pts(rng: &mut Rng, n: usize) -> Vec<Coord<f64>> {
     v
 }
 
+/// Wide-integer regime: hull vertices on an almost straight chain with coordinates up to 2^28.6, so that the
+/// orientation determinants (~2^57) are far beyond 2^53 while still exact in i64: a middle point that is a genuine
+/// hull vertex by a determinant of 1 or 2 disappears if the predicate is evaluated in floating point.
+fn wide_int_chain(rng: &mut Rng) -> Vec<Coord<f64>> {
+    let n0 = rng.range(1 << 26, 1 << 27);
+    let (dx, dy) = *rng.pick(&[(n0, n0 + 1), (n0 + 1, n0), (n0, -(n0 + 1)), (n0 + 2, n0 - 1)]);
+    let mut v = vec![];
+    for k in 0..=3i64 {
+        let (ex, ey) = if k == 0 || k == 3 { (0, 0) } else { (rng.range(-1, 1), rng.range(-1, 1)) };
+        v.push(Coord { x: (k * dx + ex) as f64, y: (k * dy + ey) as f64 });
+    }
+    // an anchor well off the chain on either side
+    if rng.chance(1, 2) { v.push(Coord { x: (3 * dx) as f64, y: 0.0 }); } else { v.push(Coord { x: 0.0, y: (3 * dy) as f64 }); }
+    if rng.chance(1, 2) { v.push(Coord { x: (dx + dx / 2) as f64, y: (dy + dy / 2) as f64 }); }
+    let (sw, fx) = (rng.chance(1, 2), rng.chance(1, 2));
+    let mut v: Vec<Coord<f64>> = v.into_iter().map(|c| {
+        let (x, y) = if sw { (c.y, c.x) } else { (c.x, c.y) };
+        Coord { x: if fx { -x } else { x }, y }
+    }).collect();
+    rng.shuffle(&mut v);
+    v
+}
+
 fn gen_pts(rng: &mut Rng) -> (Vec<Coord<f64>>, bool) {
     let k = *rng.pick(&[3i64, 4, 5, 6, 6, 8]);
     let n = if rng.chance(1, 12) { rng.below(4) as usize } else { 4 + rng.below(13) as usize };
@@ -121,7 +144,8 @@ fn gen_pts(rng: &mut Rng) -> (Vec<Coord<f64>>, bool) {
             v.insert(at, grid_coord(rng, k));
             (v, false)
         }
-        3 | 4 | 5 | 6 => (boundary_heavy(rng, k, n), false),
+        3 => (wide_int_chain(rng), true),
+        4 | 5 | 6 => (boundary_heavy(rng, k, n), false),
         7 | 8 => (big_pts(rng, n.min(8)), true),
         9 => {
             // small-integer grid shifted/scaled exactly
@@ -148,7 +172,8 @@ pub fn gen(rng: &mut Rng, _index: u64) -> String {
     if !big && rng.chance(1, 6) {
         return format!("C08.mrr {}", proto::geom(&g));
     }
-    let ty = if all_int && rng.chance(1, 3) { "i64" } else { "f64" };
+    let wide = all_int && big;
+    let ty = if all_int && (rng.chance(1, 3) || (wide && rng.chance(2, 3))) { "i64" } else { "f64" };
     format!("C08.hull {} {}", ty, proto::geom(&g))
 }
 
